@@ -2,6 +2,7 @@
 from __future__ import annotations
 
 import ast
+import os
 from dataclasses import dataclass
 from typing import Dict, FrozenSet, List, Optional, Set, Tuple
 
@@ -106,6 +107,7 @@ class MayRaise:
         self._done: Set = set()
         self._alias_cache: Dict = {}
         self._pf_cache: Dict[str, FrozenSet[Fact]] = {}
+        self._pf_settled = False
         self._cpt_cache: Dict = {}
         self._retiv: Dict[str, Tuple[float, float]] = {}
         self._pf_busy: Set[str] = set()
@@ -202,33 +204,55 @@ class MayRaise:
         return self.flows[fi.qualname]
 
     def param_facts(self, fi: FuncInfo) -> FrozenSet[Fact]:
-        """Integer ranges (and one-character strings) of the parameters of a private module-level helper, when every
-        reference to the helper in the package is a direct call whose argument has that property at the call site.
-        Computed optimistically (assume, analyse the call sites under the assumption, verify): induction on call depth."""
-        if fi.cls is not None or isinstance(fi.node, ast.Lambda) or not fi.name.startswith("_"):
-            return frozenset()
-        if fi.qualname in self._pf_cache:
-            return self._pf_cache[fi.qualname]
-        sites: List[Tuple[FuncInfo, ast.Call]] = []
-        for cq, cfi in self.m.functions.items():
-            if fi.name not in self.m.modules[cfi.module].source or isinstance(cfi.node, ast.Lambda):
-                continue
-            calls = {id(n.func) for n in ast.walk(cfi.node) if isinstance(n, ast.Call)}
-            for n in walk_no_nested(cfi.node):
-                if isinstance(n, ast.Name) and isinstance(n.ctx, ast.Load) and n.id == fi.name and self.m.resolve_name(cfi.module, n.id) == fi.qualname and id(n) not in calls:
-                    return self._pf(fi, frozenset())       # passed around as a value: call sites unknown
-                if isinstance(n, ast.Call) and isinstance(n.func, ast.Name) and self.m.resolve_name(cfi.module, n.func.id) == fi.qualname:
-                    sites.append((cfi, n))
-        if not sites or any(c.qualname == fi.qualname for c, _ in sites):
-            return self._pf(fi, frozenset())
-        ps = fi.params()
-        a_ = fi.node.args
-        allp = a_.posonlyargs + a_.args
-        defaults = {p_.arg: d for p_, d in zip(allp[len(allp) - len(a_.defaults):], a_.defaults)}
-        defaults.update({p_.arg: d for p_, d in zip(a_.kwonlyargs, a_.kw_defaults) if d is not None})
-        stores = {x.id for x in walk_no_nested(fi.node) if isinstance(x, ast.Name) and isinstance(x.ctx, ast.Store)}
+        """Facts about the parameters of a private module-level helper that hold at every call site in the package (see
+        settle_param_facts)."""
+        if not self._pf_settled:
+            self.settle_param_facts()
+        return self._pf_cache.get(fi.qualname, frozenset())
 
-        def arg_of(call: ast.Call, i: int, p_: str):
+    def _pf_candidates(self):
+        """private module-level functions that are only ever called directly, with their call sites"""
+        out = {}
+        for q, fi in list(self.m.functions.items()):
+            if fi.cls is not None or isinstance(fi.node, ast.Lambda) or not fi.name.startswith("_") or "<locals>" in q:
+                continue
+            sites: List[Tuple[FuncInfo, ast.Call]] = []
+            escaped = False
+            for cq, cfi in list(self.m.functions.items()):
+                if isinstance(cfi.node, ast.Lambda) or fi.name not in self.m.modules[cfi.module].source:
+                    continue
+                calls = {id(n.func) for n in ast.walk(cfi.node) if isinstance(n, ast.Call)}
+                for n in walk_no_nested(cfi.node):
+                    if isinstance(n, ast.Name) and isinstance(n.ctx, ast.Load) and n.id == fi.name and self.m.resolve_name(cfi.module, n.id) == fi.qualname and id(n) not in calls:
+                        escaped = True          # passed around as a value: call sites unknown
+                    if isinstance(n, ast.Call) and isinstance(n.func, ast.Name) and self.m.resolve_name(cfi.module, n.func.id) == fi.qualname:
+                        sites.append((cfi, n))
+            if escaped or not sites or any(c.qualname == fi.qualname for c, _ in sites):
+                continue
+            out[q] = (fi, sites)
+        return out
+
+    def settle_param_facts(self) -> None:
+        """Greatest fixpoint of the assumption `every int parameter of a private helper is >= 0`: assume it for all helpers at
+        once, analyse every call site under the assumptions, drop the ones that do not hold, repeat.  What survives holds by
+        induction on call depth.  A last pass adds the facts that are results rather than assumptions (exact ranges,
+        one-character strings, index/buffer pairs)."""
+        self._pf_settled = True
+        cands = self._pf_candidates()
+        info = {}
+        hyp: Dict[str, Set[str]] = {}
+        for q, (fi, sites) in cands.items():
+            a_ = fi.node.args
+            allp = a_.posonlyargs + a_.args
+            annos = {a.arg: (norm(a.annotation) if a.annotation is not None else "") for a in allp + a_.kwonlyargs}
+            defaults = {p_.arg: d for p_, d in zip(allp[len(allp) - len(a_.defaults):], a_.defaults)}
+            defaults.update({p_.arg: d for p_, d in zip(a_.kwonlyargs, a_.kw_defaults) if d is not None})
+            stores = {x.id for x in walk_no_nested(fi.node) if isinstance(x, ast.Name) and isinstance(x.ctx, ast.Store)}
+            info[q] = (annos, defaults, stores)
+            hyp[q] = {p_ for p_ in fi.params() if annos.get(p_) == "int"}       # facts at entry; later re-binding is the flow engine's business
+
+        def arg_of(q, call: ast.Call, i: int, p_: str):
+            defaults = info[q][1]
             if any(isinstance(x, ast.Starred) for x in call.args) or any(k.arg is None for k in call.keywords):
                 return None, False
             if i < len(call.args):
@@ -238,22 +262,23 @@ class MayRaise:
                     return k.value, False
             return (defaults[p_], True) if p_ in defaults else (None, False)
 
-        annos = {a.arg: (norm(a.annotation) if a.annotation is not None else "") for a in allp + a_.kwonlyargs}
-        int_params = [p_ for p_ in ps if p_ not in stores and annos.get(p_) == "int"]
-        hyp = frozenset({("GE0", p_) for p_ in int_params} | {("INT", p_, 0, INF) for p_ in int_params})
-        for _round in range(3):
-            self._pf_cache[fi.qualname] = hyp
-            self.flows.pop(fi.qualname, None)
-            for k in [k for k in self._retiv if k == fi.qualname]:
-                del self._retiv[k]
+        def install(final: Optional[Dict[str, FrozenSet[Fact]]] = None):
+            self._pf_cache = dict(final) if final is not None else \
+                {q: frozenset({("GE0", p_) for p_ in ps} | {("INT", p_, 0, INF) for p_ in ps}) for q, ps in hyp.items()}
+            self.flows.clear()
+            self._retiv.clear()
+            self._retnn.clear()
+
+        def measure(q) -> Set[Fact]:
+            fi, sites = cands[q]
+            annos, defaults, stores = info[q]
+            ps = fi.params()
             out: Set[Fact] = set()
             for i, p_ in enumerate(ps):
-                if p_ in stores:
-                    continue
                 lo, hi = INF, -INF
                 one_char = True
                 for cfi, call in sites:
-                    a, is_default = arg_of(call, i, p_)
+                    a, is_default = arg_of(q, call, i, p_)
                     if a is None:
                         lo, hi, one_char = -INF, INF, False
                         break
@@ -262,22 +287,21 @@ class MayRaise:
                     cf = frozenset() if is_default else self.flow_for(cfi).facts_at.get(id(call), frozenset())
                     al, ah = self.ival(a, cf, fi if is_default else cfi)
                     lo, hi = min(lo, al), max(hi, ah)
-                if lo >= 0:
+                if lo >= 0 and annos.get(p_) == "int":
                     out.add(("GE0", p_))
                     out.add(("INT", p_, lo, hi))
                 if one_char:
                     out.add(("LEN==", p_, "1"))
-            # index/buffer pairs: an int parameter that is a valid index of a sized parameter at every call site
             for i, p_ in enumerate(ps):
-                if p_ in stores or annos.get(p_) != "int":
+                if annos.get(p_) != "int":
                     continue
                 for j, v_ in enumerate(ps):
-                    if v_ in stores or not any(k in annos.get(v_, "") for k in ("bytes", "bytearray", "memoryview")):
+                    if not any(k in annos.get(v_, "") for k in ("bytes", "bytearray", "memoryview")):
                         continue
                     ok_all = True
                     for cfi, call in sites:
-                        ai, d1 = arg_of(call, i, p_)
-                        av, d2 = arg_of(call, j, v_)
+                        ai, _d1 = arg_of(q, call, i, p_)
+                        av, d2 = arg_of(q, call, j, v_)
                         if ai is None or av is None or d2:
                             ok_all = False
                             break
@@ -290,25 +314,34 @@ class MayRaise:
                         out.add(("LTLEN", p_, v_))
                         out.add(("GE0", p_))
                         out.add(("T", v_))
-            got = frozenset(out)
-            assumed_names = {f[1] for f in hyp if f[0] == "GE0"}
-            got_names = {f[1] for f in got if f[0] == "GE0"}
-            if assumed_names <= got_names:
-                # the hypothesis is confirmed (ranges computed under it hold by induction); keep the computed ranges
-                self.flows.pop(fi.qualname, None)
-                self._retiv.pop(fi.qualname, None)
-                return self._pf(fi, got)
-            hyp = frozenset(f for f in hyp if f[1] in got_names) | frozenset(f for f in got if f[0] == "LEN==")
-            for cfi, _ in sites:
-                self.flows.pop(cfi.qualname, None)
-        self.flows.pop(fi.qualname, None)
-        self._retiv.pop(fi.qualname, None)
-        return self._pf(fi, frozenset(f for f in hyp if f[0] == "LEN=="))
+            return out
+        for _round in range(6):
+            install()
+            changed = False
+            for q in cands:
+                got = {f[1] for f in measure(q) if f[0] == "GE0"}
+                if os.environ.get("SA_DEBUG_PF") and not hyp[q] <= got:
+                    print("PF round", _round, q, "assumed", sorted(hyp[q]), "got", sorted(got))
+                if not hyp[q] <= got:
+                    hyp[q] &= got
+                    changed = True
+            if not changed:
+                break
+        else:
+            for q in hyp:
+                hyp[q] = set()
+        install()
+        final = {q: frozenset(measure(q)) for q in cands}
+        # keep only facts whose non-negativity part was an assumption that survived (the rest was measured under them: still sound)
+        install(final)
 
     def ret_ival(self, callee: FuncInfo) -> Tuple[float, float]:
         """Hull of the integer intervals of every value the function returns."""
         if isinstance(callee.node, ast.Lambda):
             return (-INF, INF)
+        if callee.qualname in self._retiv:
+            return self._retiv[callee.qualname]
+        self.param_facts(callee)          # settle the parameter hypothesis first: it may need this very interval (computed under it)
         if callee.qualname in self._retiv:
             return self._retiv[callee.qualname]
         self._retiv[callee.qualname] = (-INF, INF)         # in progress: no information
@@ -630,7 +663,7 @@ class MayRaise:
         if isinstance(idx, ast.Name):
             if is_idx(it):
                 return True, "index variable ranges over the sequence"
-            nonneg_it = ("GE0", it) in facts or any(f[0] == "LE" and f[2] == it and _const_ge(f[1], 0) for f in facts)
+            nonneg_it = ("GE0", it) in facts or any(f[0] == "LE" and f[2] == it and (_const_ge(f[1], 0) or ("GE0", f[1]) in facts) for f in facts)
             if ("LTLEN", it, x) in facts and nonneg_it:
                 return True, "0 <= i < len(x) by loop guard"
             if nonneg_it and ("LEN>=", x, f"{it} + 1") in facts:
@@ -768,6 +801,13 @@ class MayRaise:
                 lo = max(lo, int(f[1]) + 1)
             elif f[0] == "LE" and f[2] == txt and _is_int(f[1]):
                 lo = max(lo, int(f[1]))
+            elif f[0] == "LE" and f[2] == txt and f[1].isidentifier() and f[1] != txt:
+                # a <= x with a's own lower bound known (a range() start, a parameter known non-negative)
+                if ("GE0", f[1]) in facts:
+                    lo = max(lo, 0)
+                for g in facts:
+                    if g[0] == "INT" and g[1] == f[1] and g[2] != -INF:
+                        lo = max(lo, g[2])
             elif f[0] == "EQ" and f[1] == txt and _is_int(f[2]):
                 lo, hi = max(lo, int(f[2])), min(hi, int(f[2]))
         changed = True
